@@ -1,10 +1,75 @@
 //! C13 — captive-portal probe echoes only well-formed challenges.
 //!
-//! payload: `none` | `<hex of challenge header value bytes>`
+//! payload: `none` | `<hex of challenge header value bytes>`   (handler called through the hook)
+//!          `srv none` | `srv <hex>`  the same request sent as raw HTTP/1.1 over loopback to a REAL
+//!          relay server (public `Server::spawn`, plain HTTP): covers routing of `/generate_204`
 //! output : `<status> none` | `<status> <hex of response header value>` | `illegal-header`
+use std::io::{Read, Write};
+use std::net::{SocketAddr, TcpStream};
+use std::sync::Arc;
+
+use iroh_relay::server::{AllowAll, Limits, RelayConfig, Server, ServerConfig};
 use vcommon::*;
 
-struct C13;
+struct C13 {
+    srv: Option<(tokio::runtime::Runtime, Server, SocketAddr)>,
+}
+
+impl C13 {
+    fn server_addr(&mut self) -> SocketAddr {
+        if self.srv.is_none() {
+            let rt = tokio::runtime::Builder::new_multi_thread().worker_threads(2).enable_all().build().expect("runtime");
+            let server = rt.block_on(async {
+                // non-exhaustive config structs: start from the crate's test config, TLS and QUIC off
+                let mut cfg: ServerConfig = iroh_relay::server::testing::server_config();
+                cfg.quic = None;
+                let relay: &mut RelayConfig = cfg.relay.as_mut().expect("relay config");
+                relay.tls = None;
+                relay.http_bind_addr = "127.0.0.1:0".parse().unwrap();
+                relay.limits = Limits::default();
+                relay.access = Arc::new(AllowAll);
+                Server::spawn(cfg).await.expect("relay server")
+            });
+            let addr = server.http_addr().expect("http addr");
+            self.srv = Some((rt, server, addr));
+        }
+        self.srv.as_ref().unwrap().2
+    }
+
+    /// One raw HTTP/1.1 request; returns (status, X-Iroh-Response value).
+    fn http_probe(&mut self, challenge: Option<&[u8]>) -> Result<(u16, Option<Vec<u8>>), String> {
+        let addr = self.server_addr();
+        let mut c = TcpStream::connect(addr).map_err(|e| e.to_string())?;
+        c.set_read_timeout(Some(std::time::Duration::from_secs(5))).ok();
+        let mut req = b"GET /generate_204 HTTP/1.1\r\nHost: relay.test\r\nConnection: close\r\n".to_vec();
+        if let Some(ch) = challenge {
+            req.extend_from_slice(b"X-Iroh-Challenge: ");
+            req.extend_from_slice(ch);
+            req.extend_from_slice(b"\r\n");
+        }
+        req.extend_from_slice(b"\r\n");
+        c.write_all(&req).map_err(|e| e.to_string())?;
+        let mut resp = Vec::new();
+        let _ = c.read_to_end(&mut resp);
+        let head_end = resp.windows(4).position(|w| w == b"\r\n\r\n").ok_or("no response head")?;
+        let head = &resp[..head_end];
+        let mut lines = head.split(|b| *b == b'\n');
+        let status_line = lines.next().ok_or("no status line")?;
+        let status: u16 = std::str::from_utf8(status_line).ok().and_then(|l| l.split_whitespace().nth(1)).and_then(|s| s.parse().ok()).ok_or("bad status line")?;
+        let mut hdr = None;
+        for l in lines {
+            let l = l.strip_suffix(b"\r").unwrap_or(l);
+            if let Some(i) = l.iter().position(|b| *b == b':') {
+                if l[..i].eq_ignore_ascii_case(b"x-iroh-response") {
+                    let mut v = &l[i + 1..];
+                    while v.first() == Some(&b' ') { v = &v[1..]; }
+                    hdr = Some(v.to_vec());
+                }
+            }
+        }
+        Ok((status, hdr))
+    }
+}
 
 fn legal_header_byte(b: u8) -> bool {
     b == b'\t' || (b >= 0x20 && b != 0x7f)
@@ -38,6 +103,20 @@ impl Prop for C13 {
                 }
             }
         }
+        // the same requests over real HTTP (no leading/trailing white space: the HTTP parser strips it)
+        out.push("srv none".into());
+        let srv_n = if tier == Tier::Thorough { 600 } else { 60 };
+        for i in 0..srv_n {
+            let len = match i % 6 { 0 => 63, 1 => 64, 2 => 1, _ => rng.range(1, 80) as usize };
+            let mut v: Vec<u8> = (0..len).map(|_| *rng.pick(&good)).collect();
+            if i % 4 == 3 {
+                let pos = rng.usize_below(len);
+                v[pos] = *rng.pick(&[b'~', b'!', b' ', b'/', b':', 0x80, 0xff, b'=', b'+']);
+                if v[0] == b' ' { v[0] = b'a'; }
+                if v[len - 1] == b' ' { v[len - 1] = b'a'; }
+            }
+            out.push(format!("srv {}", hex(&v)));
+        }
         // random mixes
         while out.len() < n {
             let len = match rng.below(4) {
@@ -59,8 +138,20 @@ impl Prop for C13 {
     }
 
     fn execute(&mut self, payload: &str) -> Exec {
-        let challenge = if payload == "none" { None } else { Some(unhex(payload).expect("hex")) };
-        let res = iroh_relay::server::verif_hooks::no_content(challenge.as_deref());
+        let (over_http, body) = match payload.strip_prefix("srv ") {
+            Some(b) => (true, b),
+            None => (false, payload),
+        };
+        let challenge = if body == "none" { None } else { Some(unhex(body).expect("hex")) };
+        let res = if over_http {
+            match self.http_probe(challenge.as_deref()) {
+                Ok(r) => Some(r),
+                // plumbing failure of the harness itself: not an observation about the property
+                Err(e) => return Exec::new("infra").tag(format!("infra:{e}")),
+            }
+        } else {
+            iroh_relay::server::verif_hooks::no_content(challenge.as_deref())
+        };
         let Some((status, hdr)) = res else {
             return Exec::new("illegal-header").tag("illegal-header");
         };
@@ -92,10 +183,13 @@ impl Prop for C13 {
         debug_assert!(challenge.as_ref().is_none_or(|c| c.iter().all(|b| legal_header_byte(*b))));
         ex.nontrivial = wellformed;
         ex.tags.push(if wellformed { "wellformed".into() } else { "malformed".into() });
+        if over_http {
+            ex.tags.push("over-real-http".into());
+        }
         ex
     }
 }
 
 fn main() {
-    run(C13);
+    run(C13 { srv: None });
 }
